@@ -75,7 +75,8 @@ def step_obs(rng, o, wild=False):
     if rng.random() < 0.4:
         n["cpu"] = rng.choice([0, 1, 2, 3, 7])
     if rng.random() < 0.4:
-        n["var"] = 0x5a5a0000 + rng.choice([0, 1, 2, 3])
+        # 0 matters: the global watch item is zero-filled before anything was reported ("inited" tells the two apart)
+        n["var"] = rng.choice([0, 0, 3, 0x5a5a0001, 0x5a5a0002, 0x5a5a0003])
     return n
 
 
@@ -216,6 +217,7 @@ def gen_case(rng, klass):
     # observations per hook
     o = obs0()
     o["cpu"] = rng.choice([0, 1, 2])
+    o["var"] = rng.choice([3, 3, 0x5a5a0001, 0])     # non-zero at the thread's first hook: the first change may be to 0
     wild = rng.random() < 0.2
     hooks = []
 
@@ -313,6 +315,13 @@ def fixed_cases():
             kids = (call(d % 6, 1000 + 10 * d, 3000 - 10 * d, ob(cpu=d, var=0x5a5a0010 + d), ob(cpu=6, var=0x5a5a0016), kids),)
         out.append({"klass": "any", "cfg": {"shape": "pg", "trig": {}, "pattern": "simple"}, "reads": {},
                     "wcpu": wc_, "wvar": wv_, "pmu": False, "xforest": list(kids)})
+    # a variable of 1/2/4/8 bytes that is non-zero at the thread's first hook and whose first change is TO zero (the
+    # zero-filled global item must not pass for "0 was reported already"), then 5, then 0 again
+    for vs in (1, 2, 4, 8):
+        xf = [call(0, 1100, 1400, ob(var=3), ob(var=0), [call(1, 1110, 1150, ob(var=0), ob(var=5)),
+                                                         call(2, 1200, 1300, ob(var=5), ob(var=0))])]
+        out.append({"klass": "watch0", "cfg": {"shape": "pg" if vs != 2 else "cyg", "trig": {}, "pattern": "simple"},
+                    "reads": {}, "wcpu": False, "wvar": True, "pmu": False, "xforest": xf, "vsize": vs})
     # hooks 1 ns apart: the first event (+1 ns) and the next entry event (-1 ns) collide
     xf = [call(0, 100, 200, ob(cpu=1), ob(cpu=4), [call(1, 101, 102, ob(cpu=2), ob(cpu=3))])]
     out.append({"klass": "any", "cfg": {"shape": "pg", "trig": {}, "pattern": "simple"}, "reads": {},
@@ -543,7 +552,7 @@ def run_script(h, lines, env, slot, timeout=120):
     return p.stdout.splitlines(), p.stderr
 
 
-def run_all(h, cases, workers=6):
+def run_all(h, cases, workers=2):
     def one(ic):
         i, c = ic
         c["res"] = run_case(h, c, i % (4 * workers))
@@ -667,6 +676,7 @@ def inproc(ctx):
     cases = []
     plan = [("plain", ctx.n(38, 380)), ("watch0", ctx.n(38, 380)), ("any", ctx.n(50, 520))]
     todo = fixed_cases() + [gen_case(rng, klass) for klass, n in plan for _ in range(n)]
+    ctx.log("cases generated: %d" % len(todo))
     run_all(h, todo)
     for case in todo:
         if True:
@@ -751,7 +761,7 @@ def threads(ctx):
                 for key in ("asz", "strs", "rstr"):
                     e[3].pop(key, None)
                 if base["wvar"]:
-                    e[3]["var"] = 0x5a5a0000 + rng.choice([0, 0, 1, 1, 2])     # few values: threads meet the same change
+                    e[3]["var"] = rng.choice([0, 0, 3, 3, 0x5a5a0002])     # few values: threads meet the same change
         cyg = base["cfg"].get("shape") == "cyg"
         lines = ["AUTOSTATE 2", "VALX statm_on 1", "VALX pmu_on %d" % (1 if base["pmu"] else 0)]
         pos = [0] * nth
@@ -1001,7 +1011,15 @@ def e2e(ctx):
         fo = F.gen_shape(rng, 4, rng.choice([4, 8, 14]), 4)
         cnt = [0]
         protos, bodies, hooks = [], [], []        # hooks: ('E'|'X', name, value of gv the hook observes)
-        gv = [0]
+        gv0 = rng.choice([3, 3, 1, 0])        # load-time value: non-zero mostly, so that the first change can be to 0
+        gv = [gv0]
+        first_zero = [gv0 != 0 and rng.random() < 0.6]
+
+        def newval():
+            if first_zero[0]:
+                first_zero[0] = False
+                return 0
+            return rng.randrange(0, 6)
         use_plt = method == "pg"
 
         def emit(c):
@@ -1010,30 +1028,30 @@ def e2e(ctx):
             hooks.append(("E", name, gv[0]))
             pre = post = ""
             if rng.random() < 0.3:
-                gv[0] = rng.randrange(1, 6)
+                gv[0] = newval()
                 pre = "gv = %d;" % gv[0]
             calls = []
             for k in c.kids:
                 calls.append(emit(k) + "();")
                 if rng.random() < 0.2:
-                    gv[0] = rng.randrange(1, 6)
+                    gv[0] = newval()
                     calls.append("gv = %d;" % gv[0])
             if use_plt and c.k == 3 and not c.kids:
                 calls.append("sink += getpid();")
                 hooks.append(("E", "getpid", gv[0]))
                 hooks.append(("X", "getpid", gv[0]))
             if rng.random() < 0.3:
-                gv[0] = rng.randrange(1, 6)
+                gv[0] = newval()
                 post = "gv = %d;" % gv[0]
             hooks.append(("X", name, gv[0]))
             protos.append("void %s(void);" % name)
             bodies.append("__attribute__((noinline)) void %s(void) { %s for (volatile int i = 0; i < 50; i++) sink += i; %s %s }"
                           % (name, pre, " ".join(calls), post))
             return name
-        hooks.append(("E", "main", 0))
+        hooks.append(("E", "main", gv0))
         roots = [emit(c) for c in fo]
         hooks.append(("X", "main", gv[0]))
-        src = "\n".join(["#include <unistd.h>", "volatile long gv;", "static volatile unsigned long sink;"] + protos + bodies +
+        src = "\n".join(["#include <unistd.h>", "volatile long gv = %d;" % gv0, "static volatile unsigned long sink;"] + protos + bodies +
                         ["int main(void) { %s return 0; }" % " ".join(r + "();" for r in roots)]) + "\n"
         cfile, exe, dd = [os.path.join(work, "p%d%s" % (pi, x)) for x in (".c", "", ".data")]
         open(cfile, "w").write(src)
@@ -1099,7 +1117,7 @@ def e2e(ctx):
             ctx.violation("C17 (end to end, %s): %s" % (method, bad), rep, True)
             continue
         # 3. -W var: the changes of gv at the hooks
-        exp, prev = [], 0
+        exp, prev = [], gv0
         for hk in hooks:
             if hk[2] != prev:
                 exp.append(hk[2])
